@@ -45,14 +45,14 @@ Variable tx : N -> N.
 Variable mt : metrics.
 Variable bursts : list (N * list (N * N)).
 
-Notation send := (send_message current tx mt).
-Notation drain := (Model.drain current tx mt).
-Notation unbusy := (Model.unbusy current tx mt).
-Notation offer := (Model.offer current tx mt).
-Notation handle_wake := (Model.handle_wake current tx mt bursts).
-Notation dispatch := (Model.dispatch current tx mt bursts).
-Notation step := (Model.step current tx mt bursts).
-Notation steps := (Model.steps current tx mt bursts).
+Notation send := (send_message current enc_ev tx mt).
+Notation drain := (Model.drain current enc_ev tx mt).
+Notation unbusy := (Model.unbusy current enc_ev tx mt).
+Notation offer := (Model.offer current enc_ev tx mt).
+Notation handle_wake := (Model.handle_wake current enc_ev tx mt bursts).
+Notation dispatch := (Model.dispatch current enc_ev tx mt bursts).
+Notation step := (Model.step current enc_ev tx mt bursts).
+Notation steps := (Model.steps current enc_ev tx mt bursts).
 
 Definition pending_ids (p : list ev) : list N := flat_map (burst_ids bursts) (wakes p).
 
@@ -117,7 +117,7 @@ Proof. intros H. unfold Model.unbusy. apply Acct_drain. intros x. exact (H x). Q
 Lemma Acct_fold offs : forall extra s, Acct (map fst offs ++ extra) s -> Acct extra (fold_left offer offs s).
 Proof.
   induction offs as [|o offs IH]; intros extra s H; cbn [fold_left]; [exact H|].
-  apply IH. unfold Model.offer. apply Acct_sample, Acct_send. exact H.
+  apply IH. unfold Model.offer. apply Acct_sample, Acct_send, Acct_sample. exact H.
 Qed.
 
 Lemma Acct_step s s' : SI (q s) -> Acct [] s -> step s = Some s' -> Acct [] s'.
@@ -141,12 +141,12 @@ Proof.
     cbn [emit log ch q]. proj_cons. rewrite (cnt_cons x m). rewrite cnt_nil. lia.
   - unfold Model.handle_wake. unfold burst_ids in H1.
     destruct (nth_error bursts (N.to_nat k)) as [[t offs]|]; [|exact H1].
-    apply Acct_fold, Acct_sample. rewrite app_nil_r. exact H1.
+    apply Acct_fold. rewrite app_nil_r. exact H1.
 Qed.
 
 Lemma pending_sched bs : forall pre q0 k x,
   bursts = pre ++ bs -> N.of_nat (length pre) = k -> s_tcur q0 = 0 ->
-  cnt x (pending_ids (pend (sched_wakes q0 k bs))) = (cnt x (pending_ids (pend q0)) + cnt x (all_ids bs))%nat.
+  cnt x (pending_ids (pend (sched_wakes enc_ev q0 k bs))) = (cnt x (pending_ids (pend q0)) + cnt x (all_ids bs))%nat.
 Proof.
   induction bs as [|[t offs] bs IH]; intros pre q0 k x Eb Ek H0; cbn [sched_wakes].
   - unfold all_ids. cbn [flat_map]. rewrite cnt_nil. lia.
@@ -160,7 +160,7 @@ Proof.
     + rewrite qadd_tcur. exact H0.
 Qed.
 
-Lemma Acct_init oracle : Acct [] (init bursts oracle).
+Lemma Acct_init oracle : Acct [] (init enc_ev bursts oracle).
 Proof.
   intros x. cbn [init ch q log idle_chan buffer delivered dropped_busy dropped_full flat_map map].
   destruct (sched_wakes_inv bursts sp_new 0 SI_new eq_refl) as [_ [_ [_ He]]]. rewrite He.
@@ -177,7 +177,7 @@ Qed.
 
 (* the multiset equation *)
 Theorem account oracle n :
-  let s := steps n (init bursts oracle) in
+  let s := steps n (init enc_ev bursts oracle) in
   Permutation (all_ids bursts)
     (delivered (log s) ++ dropped_busy (log s) ++ dropped_full (log s) ++ map fst (buffer (ch s))
      ++ exits (pend (q s)) ++ pending_ids (pend (q s))).
@@ -190,21 +190,21 @@ Qed.
 (* none twice: if the script's ids are pairwise distinct, so are the buckets *)
 Corollary account_nodup oracle n :
   NoDup (all_ids bursts) ->
-  let s := steps n (init bursts oracle) in
+  let s := steps n (init enc_ev bursts oracle) in
   NoDup (delivered (log s) ++ dropped_busy (log s) ++ dropped_full (log s) ++ map fst (buffer (ch s))
          ++ exits (pend (q s)) ++ pending_ids (pend (q s))).
 Proof. intros Hn. cbv zeta. eapply Permutation_NoDup; [apply account|exact Hn]. Qed.
 
 (* when the event set has run empty everything was delivered or dropped *)
 Corollary account_final oracle n :
-  let s := steps n (init bursts oracle) in
+  let s := steps n (init enc_ev bursts oracle) in
   pend (q s) = [] ->
   Permutation (all_ids bursts) (delivered (log s) ++ dropped_busy (log s) ++ dropped_full (log s)) /\
   busy (ch s) = false /\ buffer (ch s) = [].
 Proof.
   cbv zeta. intros Hp. pose proof (account oracle n) as H. cbv zeta in H. rewrite Hp in H.
   destruct (Good_reachable tx mt bursts oracle n) as [HC Hi]. pose proof (C_unb _ _ _ HC) as Hu. rewrite Hp in Hu.
-  destruct (busy (ch (steps n (init bursts oracle)))) eqn:Hb; [discriminate Hu|].
+  destruct (busy (ch (steps n (init enc_ev bursts oracle)))) eqn:Hb; [discriminate Hu|].
   rewrite (Hi eq_refl) in *. cbn [map exits wakes sel flat_map pending_ids app] in H. rewrite !app_nil_r in H.
   refine (conj H (conj eq_refl eq_refl)).
 Qed.
